@@ -354,3 +354,41 @@ cts_dec_arb!(t_arb_ecb_cs3_b3_w2_l3, 64, EcbCs3, false, Cs::Cs3, U3, 3, U2, 3);
 cts_dec_arb!(t_arb_ecb_cs3_b3_w2_l11, 64, EcbCs3, false, Cs::Cs3, U3, 3, U2, 11);
 cts_dec_arb!(t_arb_ecb_cs3_b8_w3_l41, 64, EcbCs3, false, Cs::Cs3, U8, 8, U3, 41);
 cts_dec_arb!(t_arb_ecb_cs3_b4_w1_l9, 64, EcbCs3, false, Cs::Cs3, U4, 4, U1, 9);
+// ---- quick: one-byte blocks, w=2, 6..8 blocks: at least TWO full parallel groups in the leading CBC/ECB run
+cts_fixed!(cbc_cs1_b1_w2_l6, 48, CbcCs1, true, Cs::Cs1, U1, 1, U2, 6);
+cts_fixed!(cbc_cs1_b1_w2_l7, 48, CbcCs1, true, Cs::Cs1, U1, 1, U2, 7);
+cts_fixed!(cbc_cs1_b1_w2_l8, 48, CbcCs1, true, Cs::Cs1, U1, 1, U2, 8);
+cts_dec_arb!(arb_cbc_cs1_b1_w2_l7, 48, CbcCs1, true, Cs::Cs1, U1, 1, U2, 7);
+cts_fixed!(cbc_cs2_b1_w2_l6, 48, CbcCs2, true, Cs::Cs2, U1, 1, U2, 6);
+cts_fixed!(cbc_cs2_b1_w2_l7, 48, CbcCs2, true, Cs::Cs2, U1, 1, U2, 7);
+cts_fixed!(cbc_cs2_b1_w2_l8, 48, CbcCs2, true, Cs::Cs2, U1, 1, U2, 8);
+cts_dec_arb!(arb_cbc_cs2_b1_w2_l7, 48, CbcCs2, true, Cs::Cs2, U1, 1, U2, 7);
+cts_fixed!(cbc_cs3_b1_w2_l6, 48, CbcCs3, true, Cs::Cs3, U1, 1, U2, 6);
+cts_fixed!(cbc_cs3_b1_w2_l7, 48, CbcCs3, true, Cs::Cs3, U1, 1, U2, 7);
+cts_fixed!(cbc_cs3_b1_w2_l8, 48, CbcCs3, true, Cs::Cs3, U1, 1, U2, 8);
+cts_dec_arb!(arb_cbc_cs3_b1_w2_l7, 48, CbcCs3, true, Cs::Cs3, U1, 1, U2, 7);
+cts_fixed!(ecb_cs1_b1_w2_l6, 48, EcbCs1, false, Cs::Cs1, U1, 1, U2, 6);
+cts_fixed!(ecb_cs1_b1_w2_l7, 48, EcbCs1, false, Cs::Cs1, U1, 1, U2, 7);
+cts_fixed!(ecb_cs1_b1_w2_l8, 48, EcbCs1, false, Cs::Cs1, U1, 1, U2, 8);
+cts_dec_arb!(arb_ecb_cs1_b1_w2_l7, 48, EcbCs1, false, Cs::Cs1, U1, 1, U2, 7);
+cts_fixed!(ecb_cs2_b1_w2_l6, 48, EcbCs2, false, Cs::Cs2, U1, 1, U2, 6);
+cts_fixed!(ecb_cs2_b1_w2_l7, 48, EcbCs2, false, Cs::Cs2, U1, 1, U2, 7);
+cts_fixed!(ecb_cs2_b1_w2_l8, 48, EcbCs2, false, Cs::Cs2, U1, 1, U2, 8);
+cts_dec_arb!(arb_ecb_cs2_b1_w2_l7, 48, EcbCs2, false, Cs::Cs2, U1, 1, U2, 7);
+cts_fixed!(ecb_cs3_b1_w2_l6, 48, EcbCs3, false, Cs::Cs3, U1, 1, U2, 6);
+cts_fixed!(ecb_cs3_b1_w2_l7, 48, EcbCs3, false, Cs::Cs3, U1, 1, U2, 7);
+cts_fixed!(ecb_cs3_b1_w2_l8, 48, EcbCs3, false, Cs::Cs3, U1, 1, U2, 8);
+cts_dec_arb!(arb_ecb_cs3_b1_w2_l7, 48, EcbCs3, false, Cs::Cs3, U1, 1, U2, 7);
+// ---- thorough: b=2, w=2, 12/13 bytes (two full groups + stealing)
+cts_fixed!(t_cbc_cs1_b2_w2_l12, 64, CbcCs1, true, Cs::Cs1, U2, 2, U2, 12);
+cts_fixed!(t_cbc_cs1_b2_w2_l13, 64, CbcCs1, true, Cs::Cs1, U2, 2, U2, 13);
+cts_fixed!(t_cbc_cs2_b2_w2_l12, 64, CbcCs2, true, Cs::Cs2, U2, 2, U2, 12);
+cts_fixed!(t_cbc_cs2_b2_w2_l13, 64, CbcCs2, true, Cs::Cs2, U2, 2, U2, 13);
+cts_fixed!(t_cbc_cs3_b2_w2_l12, 64, CbcCs3, true, Cs::Cs3, U2, 2, U2, 12);
+cts_fixed!(t_cbc_cs3_b2_w2_l13, 64, CbcCs3, true, Cs::Cs3, U2, 2, U2, 13);
+cts_fixed!(t_ecb_cs1_b2_w2_l12, 64, EcbCs1, false, Cs::Cs1, U2, 2, U2, 12);
+cts_fixed!(t_ecb_cs1_b2_w2_l13, 64, EcbCs1, false, Cs::Cs1, U2, 2, U2, 13);
+cts_fixed!(t_ecb_cs2_b2_w2_l12, 64, EcbCs2, false, Cs::Cs2, U2, 2, U2, 12);
+cts_fixed!(t_ecb_cs2_b2_w2_l13, 64, EcbCs2, false, Cs::Cs2, U2, 2, U2, 13);
+cts_fixed!(t_ecb_cs3_b2_w2_l12, 64, EcbCs3, false, Cs::Cs3, U2, 2, U2, 12);
+cts_fixed!(t_ecb_cs3_b2_w2_l13, 64, EcbCs3, false, Cs::Cs3, U2, 2, U2, 13);
